@@ -23,7 +23,7 @@ TRUSTED = [
 ASSUMPTIONS = [
     "job well formed: distinct task ids, every edge joins two tasks of the job, has exactly one of sink_input_kw / sink_input_ps, and no two edges feed the same input slot of the same task",
     "job acyclic (exists a rank that strictly decreases along every edge); on a cyclic job enrich does not terminate, which is outside the property's domain",
-    "theorems are stated under `precompute j = Ok p`; that every well formed acyclic job does give Ok (no KeyError, both loops end within the fuel) is C16_total_statement: NOT proved, only sampled by the correspondence run (every in-domain case returned, model and implementation alike)",
+    "theorems are stated under `precompute j = Ok p`; C16_total proves that every well formed acyclic job does give Ok with the fuel the model uses (no OutOfFuel, no KeyError)",
     "weak connectivity, paths and distances in the theorems are the inductive relations wconn / jpath / jcommon of Sched/PreschedMain.v over the job's edge list",
     "coptrs (the optional C++ nearest-common-descendant) is absent: the python fallback is what is modelled and run",
 ]
